@@ -150,7 +150,7 @@ pub fn gen_c01(sh: &mut Shards, o: &Opts) -> serde_json::Value {
         for (k, (at, w, h)) in cut_images(px.len(), ci).into_iter().enumerate() {
             let img = &px[at..at + w * h];
             // the decode must ignore transfer and primaries: rotate them over every supported value
-            let c = Cfg { tc: crate::util::TC_SUP[(k + ci) % 14], cp: crate::util::CP_SUP[(k / 14 + ci) % 11], ..c };
+            let c = Cfg { tc: crate::util::TC_LBL[(k + ci) % 18], cp: crate::util::CP_LBL[(k / 18 + ci) % 13], ..c };
             if st == 8 {
                 emit_dec::<u8>(sh, &c, st, img, w, h, "dec");
             } else {
@@ -184,7 +184,8 @@ pub fn gen_c01(sh: &mut Shards, o: &Opts) -> serde_json::Value {
     // large images (position-dependent code paths): converted whole, probed at chunk boundaries and random positions
     for (k, (c, st)) in all_matrix_cfgs().into_iter().enumerate().filter(|(k, _)| k % 23 == 0) {
         let mut rng = Rng::new(o.seed, 0x0101_b160 + k as u64);
-        let (w, h) = crate::util::big(k / 23);
+        // every other one of these frames has more than 2^20 pixels (full HD / single row / single column / 2049x1025)
+        let (w, h) = if (k / 23) % 2 == 1 && !o.mini { crate::util::huge(k / 23 / 2 + o.seed as usize) } else { crate::util::big(k / 23) };
         let maxc = (1u64 << c.n) - 1;
         let px: Vec<[u16; 3]> = (0..w * h).map(|_| [rng.below(maxc + 1) as u16, rng.below(maxc + 1) as u16, rng.below(maxc + 1) as u16]).collect();
         let idx = crate::util::probe_indices(w * h, w, &mut rng);
@@ -350,7 +351,7 @@ pub fn gen_c02(sh: &mut Shards, o: &Opts) -> serde_json::Value {
         cfgs += 1;
         for (k, (at, w, h)) in cut_images(px.len(), ci + 3).into_iter().enumerate() {
             let img = &px[at..at + w * h];
-            let (t, p) = (crate::util::TC_SUP[(k + ci) % 14], crate::util::CP_SUP[(k / 14 + ci) % 11]);
+            let (t, p) = (crate::util::TC_LBL[(k + ci) % 18], crate::util::CP_LBL[(k / 18 + ci) % 13]);
             let c = Cfg { tc: t, cp: p, ..c };
             if st == 8 {
                 emit_enc::<u8>(sh, &c, st, img, w, h, "enc", t, p);
@@ -383,7 +384,8 @@ pub fn gen_c02(sh: &mut Shards, o: &Opts) -> serde_json::Value {
     }
     for (k, (c, st)) in all_matrix_cfgs().into_iter().enumerate().filter(|(k, _)| k % 23 == 5) {
         let mut rng = Rng::new(o.seed, 0x0202_b160 + k as u64);
-        let (w, h) = crate::util::big(k / 23);
+        // every other one of these frames has more than 2^20 pixels (full HD / single row / single column / 2049x1025)
+        let (w, h) = if (k / 23) % 2 == 1 && !o.mini { crate::util::huge(k / 23 / 2 + o.seed as usize) } else { crate::util::big(k / 23) };
         let px: Vec<[f32; 3]> = (0..w * h).map(|_| [rng.f32_in(-0.5, 1.5), rng.f32_in(-0.5, 1.5), rng.f32_in(-0.5, 1.5)]).collect();
         let idx = crate::util::probe_indices(w * h, w, &mut rng);
         let sel: Vec<[f32; 3]> = idx.iter().map(|&i| px[i]).collect();
@@ -498,7 +500,7 @@ pub fn gen_c08(sh: &mut Shards, o: &Opts) -> serde_json::Value {
                 return;
             }
             // the labels the matrix stage does not use rotate from batch to batch over every supported transfer / primaries
-            let cc = Cfg { tc: crate::util::TC_SUP[label_k % 14], cp: crate::util::CP_SUP[label_k % 11], ..c };
+            let cc = Cfg { tc: crate::util::TC_LBL[label_k % 18], cp: crate::util::CP_LBL[label_k % 13], ..c };
             label_k += 1;
             if st == 8 {
                 roundtrip_collect::<u8>(&cc, batch, tab, bad);
@@ -552,7 +554,7 @@ pub fn gen_c08(sh: &mut Shards, o: &Opts) -> serde_json::Value {
         flush(&mut batch, &mut tab, &mut bad);
         // every supported transfer label once more on the anchor cube (foot-room, head-room, nominal limits, extremes)
         let (la, ca) = (anchors(n, false), anchors(n, true));
-        for _ in 0..14 {
+        for _ in 0..18 {
             for &y in &la {
                 for &u in &ca {
                     for &v in &ca {
@@ -602,7 +604,7 @@ pub fn gen_c16_yuv(sh: &mut Shards, o: &Opts) -> u64 {
         for (j, (at, w, h)) in cut_images(px.len(), ci + 5).into_iter().enumerate() {
             let img = &px[at..at + w * h];
             // the labels the matrix stage ignores rotate from image to image
-            let c = Cfg { tc: crate::util::TC_SUP[(ci + j) % 14], cp: crate::util::CP_SUP[(ci + 3 * j) % 11], ..c };
+            let c = Cfg { tc: crate::util::TC_LBL[(ci + j) % 18], cp: crate::util::CP_LBL[(ci + 3 * j) % 13], ..c };
             if st == 8 {
                 emit_dec::<u8>(sh, &c, st, img, w, h, "grey");
             } else {
